@@ -12,6 +12,13 @@ _hsf.update(name="hs_dispatch_faults", malloc_may_fail=True)
 _hsf["assumptions"] = _hsf["assumptions"] + ["hs_dispatch_faults: every allocation of the dispatcher may fail (symbolic fault schedule on the tape)"]
 HARNESSES.append(_hsf)
 HARNESSES.append(
+    dict(name="readbuf", src="readbuf.c", checks=COMMON["MEMCHECKS"], malloc_may_fail=True, leak_check=True,
+         units=["matrixssl/hsNegotiateVersion.c"],
+         functions=["matrixSslGetReadbufOfSize", "matrixSslGetReadbuf"], sources=["matrixssl/matrixsslApi.c"],
+         assumptions=["readbuf: input buffer of 16 bytes with 0..16 unconsumed (position-tagged) bytes; requested size 1..40; every allocation may fail; heap = static-pool model"],
+         undefined_ok="*", unwind=20, unwindset={"memmove:/for \\(i = 0/": 66, "realloc:/for \\(i = 0/": 66, "malloc:/for \\(j = /": 9, "vf_heap_slot_of:/for \\(j = /": 9},
+         cases=[dict(name="any", defs={})]))
+HARNESSES.append(
     dict(name="ecc_test_point", src="ecc_test_point.c", checks=COMMON["MEMCHECKS"], malloc_may_fail=True,
          functions=["eccTestPoint"], sources=["crypto/pubkey/ecc_math.c"],
          assumptions=["ecc_test_point: every bignum operation is a stub that fails or succeeds arbitrarily (ghost counters); the scratch allocation may fail; the two normalisation loops run at most twice"],
